@@ -55,7 +55,7 @@ impl Prop for C15 {
         }
     }
     fn rule(&self) -> &'static str {
-        "append-only kind: after a short history the repository is marked append-only, then a program of 5-15 random public operations runs, each through a fresh handle: backup, delete_snapshots, prune (options from the full grid), repair_index (+/- read_all), \
+        "append-only kind: after a short history (in half of the runs ending with an interrupted backup that leaves unindexed packs) the repository is marked append-only, then a program of 5-15 random public operations runs, each through a fresh handle: backup, delete_snapshots, prune (options from the full grid), repair_index (+/- read_all), \
          repair_snapshots (+/- delete), rewrite_snapshots / rewrite_snapshots_and_trees (+/- forget), apply_config (anything but clearing the flag), add_key, delete_key, copy into the repository, merge, save_snapshots; oracle on the op log of every operation: \
          no remove and no overwrite of a snapshot, index or pack file; operations of the destructive set (delete_snapshots, prune, repair_index, repair_snapshots with delete, rewrite with forget, config change) return Err and the log shows no write/remove at all between their start and end; \
          the others still work (a backup in append-only mode yields a snapshot that reads back). dry-run kind: backup, repair_index, repair_snapshots, rewrite each with its dry-run flag on a state where the wet run (executed on a fork) does write: zero writes, zero removes; prune_plan alone writes nothing. \
@@ -121,6 +121,20 @@ impl Prop for C15 {
         let mut evaluations = 0u64;
         let mut interesting = false;
         if s.kind == "append-only" {
+            if rng.chance(1, 2) {
+                // an interrupted backup leaves packs that no index lists (what an instant-delete prune would remove first)
+                let now = interpose::clock_now() / 1_000_000_000;
+                let mut m = model.clone();
+                let _ = edit_model(&mut rng, &mut m, &s.gen, now, 3);
+                sim.store.set_faults(vec![crate::store::Fault::CrashAt { actor: 1, k: 1 + rng.usize(2) }]);
+                sim.strict_bg_panics = false;
+                let r = sim.backup(&Mode::Free, &m, 1, &BackupOptions::default(), &plan, "c15");
+                sim.strict_bg_panics = true;
+                sim.store.set_faults(vec![]);
+                if !r.is_ok() {
+                    rep.fire("unindexed_packs_left_by_interrupted_backup", 1);
+                }
+            }
             let (st, ky) = (sim.store.clone(), sim.key.clone());
             if let r @ (Cmd::Err(_) | Cmd::Panic(_) | Cmd::NoProgress | Cmd::Harness(_)) = sim.run(&Mode::Free, move || repo_open(&st, 1, &ky)?.apply_config(&ConfigOptions::default().set_append_only(true)).map(|_| ())) {
                 rep.violation(format!("C15/setting-append-only-{}", r.class()), r.detail());
